@@ -483,7 +483,7 @@ fn stub_excused(name: &str, args: &[u64]) -> bool {
 /// cases that took longer than 2 s (normal cost: microseconds) are recorded here at once and their
 /// operation is skipped afterwards, so that neither the search nor proptest's shrinking (which would
 /// re-run a multi-second case hundreds of times) can stall the check
-static SLOW: Mutex<Vec<(usize, Viol)>> = Mutex::new(Vec::new());
+static SLOW: Mutex<Vec<(usize, Option<Viol>)>> = Mutex::new(Vec::new());
 
 pub fn eval_checked(opi: usize, args: &[u64], l: &mut Local) -> Result<Option<u64>, Viol> {
     let op = &registry()[opi];
@@ -497,9 +497,25 @@ pub fn eval_checked(opi: usize, args: &[u64], l: &mut Local) -> Result<Option<u6
     leave();
     let dt = t0.elapsed().as_secs_f64();
     if dt > 2.0 {
-        let v = Viol { op: op.name.clone(), args: args.to_vec(), want: "a result within microseconds".into(), got: match &r { Ok(v) => format!("{:#x} after {:.1} s", v, dt), Err(m) => format!("{} after {:.1} s of spinning", m, dt) }, kind: if r.is_err() { "panic" } else { "hang" } };
-        SLOW.lock().unwrap().push((opi, v));
-        return Ok(None);
+        // skip the operation from now on (also keeps proptest from re-running a multi-second case while shrinking)
+        match &r {
+            Err(m) => {
+                let v = Viol { op: op.name.clone(), args: args.to_vec(), want: "a result within microseconds".into(), got: format!("{} after {:.1} s of spinning", m, dt), kind: "panic" };
+                SLOW.lock().unwrap().push((opi, Some(v)));
+                return Ok(None);
+            }
+            Ok(v) if dt > 30.0 => {
+                let v = Viol { op: op.name.clone(), args: args.to_vec(), want: "a result within microseconds".into(), got: format!("{:#x} after {:.1} s", v, dt), kind: "hang" };
+                SLOW.lock().unwrap().push((opi, Some(v)));
+                return Ok(None);
+            }
+            Ok(_) => {
+                // a few seconds for a call that normally takes microseconds: most likely this thread was
+                // descheduled on a loaded machine; not a violation, but do not keep paying for it
+                l.label("slow_case(2-30s, not judged)");
+                SLOW.lock().unwrap().push((opi, None));
+            }
+        }
     }
     match r {
         Ok(v) => Ok(Some(v)),
@@ -643,8 +659,10 @@ pub fn run(rep: &mut Report) {
     }
     worker.kill();
     for (_, v) in SLOW.lock().unwrap().drain(..) {
-        if let Err(v) = l.outcome(rep.cfg.prop, Err(v)) {
-            viols.push(v);
+        if let Some(v) = v {
+            if let Err(v) = l.outcome(rep.cfg.prop, Err(v)) {
+                viols.push(v);
+            }
         }
     }
     l.sample(|| json!({"ops_registered": reg.len(), "cases_compared_between_builds": pend.len()}));
